@@ -364,7 +364,9 @@ QInjProg(shape, need) ==
           <<[Inj("Inject", <<>>, "T1", FALSE, FALSE, <<ItL(1)>>) EXCEPT !.res = QRes(shape)]>>)
 \* identical parameter / field types
 QDupProg(v) ==
-  LET atoms == <<Tok("T1"), Tok("T2"), StructT("S4", "a", <<Fld("X", "T2"), Fld("Y", "T2"), Fld("Z", "*T2")>>)>>
+  LET atoms == <<Tok("T1"), Tok("T2"), StructT("S4", "a", <<Fld("X", "T2"), Fld("Y", "T2"), Fld("Z", "*T2")>>),
+                 StructT("S5", "a", <<FldT("M", "T1", "pre"), Fld("X", "T2"), Fld("Y", "T2")>>),
+                 StructT("S6", "a", <<Fld("X", "T2"), FldT("M", "T2", "pre"), Fld("Z", "*T2")>>)>>
       p2 == Func("P2", <<>>, "T2", FALSE, FALSE)   pp2 == Func("PP2", <<>>, "*T2", FALSE, FALSE)
       psl == [Func("PSl", <<>>, "[]T2", FALSE, FALSE) EXCEPT !.name = "PSl"]
       mk(leaves, out) == Prog("Q/dup/" \o v, "Q", atoms, leaves, <<>>, <<Inj("Inject", <<>>, out, FALSE, FALSE, [i \in DOMAIN leaves |-> ItL(i)])>>)
@@ -376,10 +378,13 @@ QDupProg(v) ==
        [] v = "struct-ptr"     -> mk(<<StructL("St", "S4", <<"X", "Z">>, FALSE), p2, pp2>>, "S4")
        [] v = "struct-star"    -> mk(<<StructL("St", "S4", <<>>, TRUE), p2, pp2>>, "*S4")
        [] v = "struct-one"     -> mk(<<StructL("St", "S4", <<"Y">>, FALSE), p2>>, "*S4")
+       [] v = "struct-star-dup-after-prevented" -> mk(<<StructL("St", "S5", <<>>, TRUE), p2>>, "S5")     \* {M prevented; X T2; Y T2}
+       [] v = "struct-star-prevented-twin"      -> mk(<<StructL("St", "S6", <<>>, TRUE), p2, pp2>>, "S6") \* {X T2; M T2 prevented; Z *T2}: legal
 FamilyQ(p, maxlen) ==
   \/ \E s \in QShapes(maxlen) : \E pl \in {"direct", "nested", "otherpkg", "unused"} : p = QProvProg(s, pl)
   \/ \E s \in QShapes(maxlen) : \E nd \in {"p", "e", "c", "b"} : p = QInjProg(s, nd)
-  \/ \E v \in {"func-same", "func-ptr", "func-variadic", "func-var-same", "struct-same", "struct-ptr", "struct-star", "struct-one"} : p = QDupProg(v)
+  \/ \E v \in {"func-same", "func-ptr", "func-variadic", "func-var-same", "struct-same", "struct-ptr", "struct-star", "struct-one",
+               "struct-star-dup-after-prevented", "struct-star-prevented-twin"} : p = QDupProg(v)
 
 (* ======================================================================== *)
 (* Family U (unused direct items).  Three accepted bases - a chain, an      *)
@@ -589,9 +594,10 @@ XProg(v) ==
     [] v = "two-files-second-missing" ->
          mk(<<XF("P1", <<"T2">>, "T1"), XF("P3", <<>>, "T3")>>, <<>>,
             <<XInj("InjectA", <<>>, "T3", <<ItL(2)>>, 1), XInj("InjectB", <<>>, "T1", <<ItL(1)>>, 2)>>)
-    [] v = "two-files-ok" ->
+    [] v = "two-files-ok" ->                     \* (every injector file also carries a non-injector declaration: opts.filedecl)
          mk(<<XF("P1", <<"T3">>, "T1"), XF("P3", <<>>, "T3")>>, <<>>,
             <<XInj("InjectA", <<>>, "T1", <<ItL(1), ItL(2)>>, 1), XInj("InjectB", <<>>, "T3", <<ItL(2)>>, 2), XInj("InjectC", <<>>, "T1", <<ItL(1), ItL(2)>>, 2)>>)
+         @@ [opts |-> [filedecl |-> TRUE]]
     [] v = "missing-behind-bind" ->           \* the bound type has a provider, one of its inputs has none
          mk(<<BindL("B", "I1", "*C"), XF("PC", <<"T8">>, "*C"), XF("Q", <<"I1">>, "T9")>>, <<>>,
             <<XInj("Inject", <<>>, "T9", <<ItL(1), ItL(2), ItL(3)>>, 1)>>)
@@ -680,6 +686,15 @@ XProg(v) ==
     [] v = "foreign-struct-star-full-sig" ->
          mk(<<StructL("St", "S9", <<>>, TRUE), FuncIn("PU1", "b", <<>>, "U1", FALSE, FALSE), FuncIn("PU2", "b", <<>>, "U2", FALSE, FALSE)>>, <<>>,
             <<[XInj("Inject", <<>>, "S9", <<ItL(1), ItL(2), ItL(3)>>, 1) EXCEPT !.cl = TRUE, !.er = TRUE]>>)
+    [] v = "unnamed-params-same-type-name" ->   \* unnamed / blank parameters whose types have one name in two packages
+         mk(<<XF("P1", <<"T2", "*U1", "T3">>, "T1")>>, <<>>,
+            <<XInj("Inject", <<Par("", "T2"), Par("", "*U1"), Par("", "T3")>>, "T1", <<ItL(1)>>, 1),
+              XInj("InjectBlank", <<Par("_", "T2"), Par("_", "*U1"), Par("_", "T3")>>, "T1", <<ItL(1)>>, 1)>>)
+         @@ [naming |-> [x \in {"T2", "U1", "T3"} |-> IF x = "T3" THEN "Err" ELSE "Config"]]
+    [] v = "set-through-plain-alias-package" ->  \* package c re-exports b's set under another name and does not import wire itself
+         mk(<<FuncIn("PU1", "b", <<>>, "U1", FALSE, FALSE), XF("P1", <<"U1">>, "T1")>>,
+            <<SetD("SetB", "b", <<ItL(1)>>), [SetD("Default", "c", <<ItS(1)>>) EXCEPT !.grp = "=alias"]>>,
+            <<XInj("Inject", <<>>, "T1", <<ItS(2), ItL(2)>>, 1)>>)
     [] v = "same-set-twice-direct" ->          \* one set listed twice in the same call
          mk(<<XF("P2", <<>>, "T2"), XF("P1", <<"T2">>, "T1")>>, <<SetD("SetA", "a", <<ItL(1)>>)>>,
             <<XInj("Inject", <<>>, "T1", <<ItS(1), ItL(2), ItS(1)>>, 1)>>)
@@ -694,7 +709,7 @@ XVariants == {"star-foreign-tag-missing", "star-foreign-tag-ok", "two-files-firs
               "iface-result-bound-to-value-struct", "alias-satisfies", "defined-type-does-not-satisfy", "pointer-does-not-satisfy-value",
               "value-does-not-satisfy-pointer", "multi-name-var-sets-missing", "two-fieldsof-second-unused", "missing-under-fieldsof-parent",
               "set-used-by-first-injector-only", "struct-fields-from-params-crossed", "inaccessible-value", "inaccessible-value-full-sig",
-              "foreign-struct-star-full-sig"}
+              "foreign-struct-star-full-sig", "unnamed-params-same-type-name", "set-through-plain-alias-package"}
 FamilyX(p, vs) == \E v \in vs : p = XProg(v)
 
 (* ======================================================================== *)
